@@ -361,3 +361,62 @@ mut("c14-is-one-any-cube", "C14",
     ("src/sop/sop.rs",
      "        match self.cubes.first() {\n            Some(c) => c.is_one(),",
      "        match self.cubes.last() {\n            Some(c) => c.is_one() || (self.cubes.len() > 2 && c.num_lits() == 1),"))
+
+# ---------------------------------------------------------------- C15
+mut("c15-constant-term-as-x0-xor-notx0", "C15",
+    "From<&Lut> for Esop emits the constant term as x0 ^ !x0 (same function, not the positive-polarity form)",
+    ("src/sop/esop.rs",
+     "            ret.cubes.push(Cube::from_mask(i as u32, 0));",
+     "            if i == 0 && value.num_vars() > 0 {\n                ret.cubes.push(Cube::nth_var(0));\n                ret.cubes.push(Cube::nth_var_inv(0));\n            } else {\n                ret.cubes.push(Cube::from_mask(i as u32, 0));\n            }"))
+mut("c15-superset-test-wrong-above-8", "C15",
+    "the Moebius sweep toggles the wrong supersets for monomials using variable 8 or above",
+    ("src/sop/esop.rs",
+     "                if !j & i == 0 {",
+     "                if (!j & i == 0) != (i >= 256 && j & 1 == 1 && i & 1 == 0) {"))
+mut("c15-not-pushes-zero-cube", "C15",
+    "Not for &Esop appends the zero cube instead of the one cube",
+    ("src/sop/esop.rs",
+     "        ret.cubes.push(Cube::one());\n        ret",
+     "        ret.cubes.push(Cube::zero());\n        ret"))
+mut("c15-xor-dedups", "C15",
+    "Esop::xor sorts and dedups the concatenated cubes (x ^ x = x instead of 0)",
+    ("src/sop/esop.rs",
+     "        let mut cubes = a.cubes.clone();\n        cubes.extend(&b.cubes);\n        Esop {",
+     "        let mut cubes = a.cubes.clone();\n        cubes.extend(&b.cubes);\n        if cubes.len() > 2 {\n            cubes.sort();\n            cubes.dedup();\n        }\n        Esop {"))
+mut("c15-is-one-first-cube", "C15",
+    "Esop::is_one only looks at the first cube",
+    ("src/sop/esop.rs",
+     "        if self.cubes.len() != 1 {\n            return false;\n        }",
+     "        if self.cubes.is_empty() {\n            return false;\n        }"))
+
+# ---------------------------------------------------------------- C16
+mut("c16-cube-drops-bang-var7-3lits", "C16",
+    "Cube::fmt drops the '!' of variable 7 in cubes of 3 or more literals",
+    ("src/sop/cube.rs",
+     "            if neg & 1 != 0 {\n                write!(f, \"!x{}\", i)?;\n            }",
+     "            if neg & 1 != 0 {\n                if i == 7 && self.num_lits() >= 3 {\n                    write!(f, \"x{}\", i)?;\n                } else {\n                    write!(f, \"!x{}\", i)?;\n                }\n            }"))
+mut("c16-esop-separator-or", "C16",
+    "Esop::fmt joins with ' | ' when there are 3 or more cubes",
+    ("src/sop/esop.rs",
+     "            .collect::<Vec<_>>()\n            .join(\" ^ \");",
+     "            .collect::<Vec<_>>()\n            .join(if self.cubes.len() >= 3 { \" | \" } else { \" ^ \" });"))
+mut("c16-soes-xor-separator", "C16",
+    "Soes::fmt joins the terms with ' ^ ' instead of ' | ' when there are 3 or more",
+    ("src/sop/soes.rs",
+     "            .collect::<Vec<_>>()\n            .join(\" | \");",
+     "            .collect::<Vec<_>>()\n            .join(if self.cubes.len() >= 3 { \" ^ \" } else { \" | \" });"))
+mut("c16-cube-msb-first-4lits", "C16",
+    "Cube::fmt prints the literals by decreasing index for cubes of exactly 4 literals",
+    ("src/sop/cube.rs",
+     "        let mut pos = self.pos;\n        let mut neg = self.neg;\n        let mut i = 0;\n        while pos != 0 || neg != 0 {",
+     "        if self.num_lits() == 4 {\n            for v in (0..32).rev() {\n                if (self.pos >> v) & 1 != 0 {\n                    write!(f, \"x{}\", v)?;\n                }\n                if (self.neg >> v) & 1 != 0 {\n                    write!(f, \"!x{}\", v)?;\n                }\n            }\n            return Ok(());\n        }\n        let mut pos = self.pos;\n        let mut neg = self.neg;\n        let mut i = 0;\n        while pos != 0 || neg != 0 {"))
+mut("c16-ecube-drops-polarity-4vars", "C16",
+    "Ecube::fmt omits the leading '1 ^' of an XNOR of 4 or more variables",
+    ("src/sop/ecube.rs",
+     "        if self.xnor {\n            v.push(\"1\".to_string());\n        }",
+     "        if self.xnor && self.num_lits() < 4 {\n            v.push(\"1\".to_string());\n        }"))
+mut("c16-sop-missing-separator", "C16",
+    "Sop::fmt forgets the separator between the cubes of a Sop with exactly 3 cubes",
+    ("src/sop/sop.rs",
+     "            .map(|c| c.to_string())\n            .collect::<Vec<_>>()\n            .join(\" | \");\n        write!(f, \"{}\", s)\n    }\n}\n\nimpl From<&Lut> for Sop",
+     "            .map(|c| c.to_string())\n            .collect::<Vec<_>>()\n            .join(if self.cubes.len() == 3 { \"\" } else { \" | \" });\n        write!(f, \"{}\", s)\n    }\n}\n\nimpl From<&Lut> for Sop"))
